@@ -16,6 +16,16 @@ func SpecEqualFold(a, b string) bool { panic("abstract spec function") }
 //@   trusted library contract
 //@   ensures spec: r == SpecEqualFold(a, b)
 
+// SpecLower is strings.ToLower (abstract).
+func SpecLower(s string) string { panic("abstract spec function") }
+
+//@ spec SpecLower abstract
+
+//@ func strings.ToLower(s) (r)
+//@   trusted library contract (pure), lower-casing uninterpreted
+//@   modifies nothing
+//@   ensures def: r == SpecLower(s)
+
 // SpecContains is strings.Contains (abstract).
 func SpecContains(s string, sub string) bool { panic("abstract spec function") }
 
